@@ -219,6 +219,13 @@ func (w *SenderWorker) Process(sqe *bus.SQE[t_aio.Submission, t_aio.Completion])
 		return
 	}
 
+	if logicalRecv == nil && physicalRecv == nil {
+		// the stored recv is the json value null, it unmarshals into neither
+		cqe.Error = fmt.Errorf("invalid receiver %s", sqe.Submission.Sender.Task.Recv)
+		w.aio.EnqueueCQE(cqe)
+		return
+	}
+
 	util.Assert((logicalRecv != nil) != (physicalRecv != nil), "one of logical or physical recv must be nil, but not both")
 
 	var recv *receiver.Recv
